@@ -100,6 +100,42 @@ def mappings_in_lists_check():
     return out
 
 
+def empty_mapping_check():
+    """an empty mapping is a state point value like any other (a leaf: there is no dotted key below it): the schema reports no value for
+    it (mappings are not values), the diff of jobs holding one is computed and reconstructs the state points (finding F31)"""
+    import signac
+    from signac.diff import diff_jobs
+    from signac._utility import _nested_dicts_to_dotted_keys
+    out = []
+    sps = [{"a": 1, "b": {}}, {"a": 2, "b": {}}, {"a": 1, "b": {"c": 1}}, {"a": 1, "e": [1, {}]}]
+    with project_scratch() as p:
+        jobs = [p.open_job(sp).init() for sp in sps]
+        try:
+            sch = p.detect_schema(exclude_const=False)
+            got = {k: {t.__name__: sorted(map(repr, vs)) for t, vs in sch[k].items()} for k in sch}
+            # the key b is present (two jobs hold an empty mapping under it) and has no value: mappings are not values
+            want = {"a": {"int": ["1", "2"]}, "b": {}, "b.c": {"int": ["1"]}, "e": {"tuple": [repr((1, {}))]}}
+            if {k: v for k, v in got.items() if k != "e"} != {k: v for k, v in want.items() if k != "e"} or set(got) - set(want):
+                out.append(("schema", f"state points {sps}: detect_schema reports {got}"))
+        except Exception as e:
+            out.append(("schema-raised", f"detect_schema over state points with an empty mapping raised {type(e).__name__}: {e}"))
+        try:
+            d = diff_jobs(*jobs)
+            flat = lambda sp: {k: v for k, v in _nested_dicts_to_dotted_keys(sp)}
+            common = None
+            for sp in sps:
+                f = flat(sp)
+                common = dict(f) if common is None else {k: v for k, v in common.items() if k in f and f[k] == v}
+            for j, sp in zip(jobs, sps):
+                merged = dict(common)
+                merged.update(flat(d[j.id]))
+                if merged != flat(sp):
+                    out.append(("diff", f"state points {sps}: diff of {sp} is {d[j.id]}, which does not reconstruct it"))
+        except Exception as e:
+            out.append(("diff-raised", f"diff_jobs over state points with an empty mapping raised {type(e).__name__}: {e}"))
+    return out
+
+
 def run(tier="quick", seed=0):
     import signac
     from signac.diff import diff_jobs
@@ -203,7 +239,10 @@ with tempfile.TemporaryDirectory() as d:
     for key, msg in mappings_in_lists_check():
         failures.append({"key": "mapping-inside-list:" + key, "description": msg,
                          "script": script_header() + "sys.path.insert(0, '/verif')\nfrom pybound.c18 import mappings_in_lists_check\nr = mappings_in_lists_check()\nassert not r, r\n"})
-    evals += 6
+    for key, msg in empty_mapping_check():
+        failures.append({"key": "empty-mapping:" + key, "description": msg,
+                         "script": script_header() + "sys.path.insert(0, '/verif')\nfrom pybound.c18 import empty_mapping_check\nr = empty_mapping_check()\nassert not r, r\n"})
+    evals += 8
     # probe of known finding F3 on the schema side
     with project_scratch() as p:
         p.open_job({"v": True}).init()
